@@ -121,10 +121,10 @@ package service
 // days of the whole requested range, in whatever zone the process runs (an index
 // row only on the last day would otherwise be missed and the series handed to the
 // engine without labels).
-//@ func FormatFromDate [C17]
+//@ func FormatFromDate [C13,C17]
 //@   modifies fmtDay
 //@   ensures fmtDay == fdiv(from.UnixNano() - 1800000000000, 86400000000000)
-//@ func (*labelsGetter).getFetchRequest [C17]
+//@ func (*labelsGetter).getFetchRequest [C13,C17]
 //@   flag checks=-index
 //@   at sql_select.Ge lower-date-covers-range-start: typeis(arg0, "*sql.RawObject") && unbox(arg0, "*sql.RawObject").val == "date" ==> fmtDay <= fdiv(l.DateFrom.UnixNano(), 86400000000000)
 //@   at sql_select.Le upper-date-covers-range-end: typeis(arg0, "*sql.RawObject") && unbox(arg0, "*sql.RawObject").val == "date" ==> fmtDay >= fdiv(l.DateTo.UnixNano(), 86400000000000)
